@@ -302,9 +302,7 @@ Definition apply_tamper (r : rec (payload Z tentry)) (t : tamper) : rec (payload
                 | TIdx _ i => {| ckey := ckey c0; cidx := i; cval := cval c0 |}
                 | TKey _ k => {| ckey := k; cidx := cidx c0; cval := cval c0 |}
                 end in
-      let same (c : col (payload Z tentry)) :=
-        str_eqb (ckey c) (ckey c0)
-        && match cidx c, cidx c0 with Some a, Some b => a =? b | None, None => true | _, _ => false end in
+      let same (c : col (payload Z tentry)) := poid (cval c) =? poid (cval c0) in
       {| rdict := map (fun kc => if str_eqb (fst kc) name then (fst kc, c1) else kc) (rdict r);
          rlist := map (fun o => match o with
                                 | Some c => if same c then Some c1 else Some c
